@@ -116,7 +116,9 @@ WellFormed(L) ==
    /\ L.ok /\ L.big = <<>>
    /\ W1(L) /\ W2(L) /\ W3(L) /\ W4(L) /\ W5(L) /\ W6(L) /\ W7(L) /\ W8(L) /\ W10(L) /\ W11(L)
 \* what additionally holds of everything this crate's writer emits from scratch
-WriterWellFormed(L) == WellFormed(L) /\ W3Writer(L) /\ W4Writer(L) /\ W5Writer(L) /\ W12(L)
+WriterWellFormed(L) == WellFormed(L) /\ W3Writer(L) /\ W4Writer(L) /\ W5Writer(L)
+\* ... and no byte is unaccounted for (unless the caller wrote bytes where no entry was open)
+NoGaps(L) == W12(L)
 
 \* first violated conjunct, for diagnostics
 WhyNot(L) ==
@@ -124,7 +126,7 @@ WhyNot(L) ==
    ELSE IF ~W4(L) THEN "W4" ELSE IF ~W5(L) THEN "W5" ELSE IF ~W6(L) THEN "W6" ELSE IF ~W7(L) THEN "W7"
    ELSE IF ~W8(L) THEN "W8" ELSE IF ~W10(L) THEN "W10" ELSE IF ~W11(L) THEN "W11"
    ELSE IF ~W3Writer(L) THEN "W3w" ELSE IF ~W4Writer(L) THEN "W4w" ELSE IF ~W5Writer(L) THEN "W5w"
-   ELSE IF ~W12(L) THEN "W12" ELSE "ok"
+   ELSE "ok"
 
 (***************************************************************************)
 (* Directory(L): the meaning of an archive -- the sequence of entries the  *)
